@@ -1,5 +1,6 @@
 """C11 — frame views: op sequences over a pool of frames/views, step-by-step against BS.Frame."""
 PID = "C11"
+CASE_LIMIT = {"C11": 15}   # seconds: these cases are function calls, not sessions
 EXACT = True
 RULE = ("op sequences (slice/pfx/grow/ensure/make/copy/append/swap/zero/less/hash/sort/ptr) over a pool of "
         "frames and aliasing views for 9 column-type schemas; after every op every allocation and every "
